@@ -196,7 +196,7 @@ def opSchedEnabled : Op := fun j => do
 /-! ### bounded exploration -/
 
 def eholdB (p : Pc) : Bool :=
-  p == .bCheck || p == .bSessLock || p == .bSessRead || p == .bPost || p == .cCheck || p == .cStore ||
+  p == .bCheck || p == .bPost || p == .cCheck || p == .cStore ||
   p == .aBody || p == .clKill || p == .kBody
 
 def tholdB (l : Local) : Bool := ((l.pc == .bRelock || l.pc == .bPost) && l.okF) || l.pc == .cStore
